@@ -151,7 +151,10 @@ def gen_ops(rng, devs, n, profile, wild=0.08):
             emit(["configure", rng.choice(ids), rng.randint(1, 99)])
         elif kind == "monitor":
             r = rng.random()
-            if r < 0.35 or not t.monitored:
+            if rng.random() < 0.15:      # pauses / suspensions silencing the monitors, possibly overlapping
+                emit(rng.choice([["suspend_monitors"], ["suspend_monitors"], ["restore_monitors"], ["restore_monitors"],
+                                 ["restore_monitors"]]))
+            elif r < 0.35 or not t.monitored:
                 o = rng.choice(subs)
                 nm = rng.choice([4, 5, 6] + ([rng.choice(names)] if rng.random() < 0.1 else []))
                 emit(["monitor", o, nm, False])
